@@ -85,6 +85,17 @@ def cases(seed, tier):
                 p['keys'] = gen.rand_keys(r2, p['key'])
                 p['kex'] = [r2.choice(['curve25519-sha256', 'diffie-hellman-group14-sha256', 'ecdh-sha2-nistp256', 'diffie-hellman-group-exchange-sha256'])] + [k for k in p['kex'] if k not in gen.PROBE_KEX]
                 p['gex'] = {'sizes': [r2.choice([1024, 2048, 3072, 4096])], 'style': r2.choice(['strict', 'roundup'])}
+            rq = gen.case_rng(seed, ID, i, 'quiet_packets')
+            if rq.random() < 0.12:
+                # a peer that sends SSH_MSG_IGNORE / SSH_MSG_DEBUG packets (RFC 4253 section 11: allowed at any time after the identification
+                # strings) ahead of its KEXINIT, on every connection: its lists are the ones in the KEXINIT that follows
+                pk = []
+                for _ in range(rq.randrange(1, 4)):
+                    if rq.random() < 0.5:
+                        pk.append(wire.frame(bytes([wire.MSG_IGNORE]) + wire.sstr('x' * rq.choice([0, 4, 300]))))
+                    else:
+                        pk.append(wire.frame(bytes([wire.MSG_DEBUG, rq.choice([0, 1])]) + wire.sstr('m' * rq.choice([0, 12, 200])) + wire.sstr(rq.choice(['', 'en']))))
+                c['quiet_packets'] = b''.join(pk).hex()
             c['profile'] = p
         yield c
 
@@ -98,12 +109,14 @@ def _plan(case, opts, net, seed):
     prof = case['profile']
     if role == 'client':
         argv = list(opts) + ['-c', '-p', '2222', '-t', '4']
-        return gen.client_plan(seed, argv, prof, port=2222, net=net, knobs=case.get('knobs'), family=case.get('family', 4))
+        return gen.client_plan(seed, argv, prof, port=2222, net=net, knobs=case.get('knobs'), family=case.get('family', 4),
+                               faults=[{'conn': '*', 'msg': 'kexinit', 'kind': 'insert_before', 'hex': case['quiet_packets']}] if case.get('quiet_packets') else None)
     argv = list(opts) + ['--skip-rate-test']
     if case.get('ssh1_only_flag'):
         argv.append('-1')
     argv.append('srv.example:2222')
-    return gen.server_plan(seed, argv, prof, port=2222, net=net, knobs=case.get('knobs'))
+    return gen.server_plan(seed, argv, prof, port=2222, net=net, knobs=case.get('knobs'),
+                           faults=[{'conn': '*', 'msg': 'kexinit', 'kind': 'insert_before', 'hex': case['quiet_packets']}] if case.get('quiet_packets') else None)
 
 
 def _expected(case):
